@@ -36,7 +36,7 @@ def main(ctx):
     r = chainlib.model_run(ctx, "ValidatorsIncr.tla", "MC_ValidatorsIncr.cfg", workers=8)
     trace, stats, out = chainlib.run_histories(ctx, quick, extra_args=["-identity-heavy"])
     if stats is None:
-        raise vlib.CheckError("driver failed:\n" + out[-3000:])
+        vlib.driver_failure(ctx, out)
     ok, info = chainlib.validate(ctx, trace, "Trace_Registry.tla", "Trace_Registry.cfg", MINE, "C10", describe)
     rows = vlib.read_ndjson(trace)
     blocks = [x for x in rows if x.get("ev") == "Block" and not x.get("refused")]
